@@ -157,6 +157,7 @@ def explore(prog, repo, n, alphabet, budget, concrete=None, prefix=""):
 	accepted = 0
 	timed_out = False
 	covered = 0
+	examples = []
 	for fin in ip.run(st):
 		paths += 1
 		if concrete is None:
@@ -165,6 +166,10 @@ def explore(prog, repo, n, alphabet, budget, concrete=None, prefix=""):
 		res = fin.result
 		if res.variant == "Ok":
 			accepted += 1
+			if concrete is None and len(examples) < 3:
+				m_ = sym.model(fin)
+				if m_ is not None:
+					examples.append("".join(chr(c) for c in [ord(c) for c in prefix] + m_))
 		for label, detail, s in driver.compare(models, fin, res, parser):
 			# a few counter-examples PER LABEL (a violation of one property must not hide another's)
 			if sum(1 for v in violations if v["label"] == label) >= 3:
@@ -178,7 +183,7 @@ def explore(prog, repo, n, alphabet, budget, concrete=None, prefix=""):
 	complete = (concrete is not None) or timed_out or covered == total
 	if not complete:
 		raise MirError("path partition incomplete: paths cover %d of %d inputs" % (covered, total))
-	return dict(n=n, prefix=prefix, alphabet=alphabet, inputs_covered=str(covered), inputs_total=str(total), paths=paths, accepted_paths=accepted, forks=ip.stats["forks"], mir_steps=ip.stats["steps"],
+	return dict(n=n, prefix=prefix, alphabet=alphabet, accepted_examples=examples, inputs_covered=str(covered), inputs_total=str(total), paths=paths, accepted_paths=accepted, forks=ip.stats["forks"], mir_steps=ip.stats["steps"],
 	            solver_queries=sym.queries, solver_time_s=round(sym.solver_time, 2), wall_s=round(time.time() - t0, 2),
 	            timed_out=timed_out, violations=violations), models
 
